@@ -405,6 +405,13 @@ def build(x):
         import re as _re
         if not _re.search(r"const %s: &'static str = \"%s\";" % (cname, val), t):
             raise G.Undecided("feature-name constant %s in %s changed" % (cname, fname))
+    # neighbouring API: the crate's epsilon constant, copied verbatim from energy_model_ops.rs (a change that starts using it still type-checks and meets the contracts)
+    import re as _re2
+    ops_src = x.src("routee-compass-powertrain/src/routee/energy_model_ops.rs").text
+    mz = _re2.search(r"pub const ZERO_ENERGY: f64 = ([0-9.eE+-]+);", ops_src)
+    if mz:
+        parts.append("pub const ZERO_ENERGY: f64 = %s;\n// A-REAL: the constant denotes its decimal value, which is strictly positive\npub broadcast axiom fn lit_zero_energy() ensures #[trigger] f64_real(ZERO_ENERGY) > 0real;\n" % mz.group(1))
+        x.note("copy", "energy_model_ops.rs :: const ZERO_ENERGY = %s (with the axiom that it denotes a strictly positive real)" % mz.group(1))
     parts.append(LEMMAS)
     parts.append("""
 // vacuity guard: MUST FAIL
